@@ -212,10 +212,28 @@ def setup(decider, strategy, jobs, nbits, script, mutset, maxwrites=12,
         env.events.append(('check', t, v))
         return v
 
+    real_write = nodeio.write_smtlib_to_file
+    env.filewrites = []      # what the real writer left in a real file
+    env.workdir = None
+
     def write(filename, exprs):
         t = norm(tokens(exprs))
         env.writes.append(t)
         env.events.append(('write', t))
+        # the real writer on a real file next to the recording: the file
+        # must then hold exactly this input
+        import os
+        import tempfile
+        if env.workdir is None:
+            env.workdir = tempfile.mkdtemp(prefix='verif-out-')
+        path = os.path.join(env.workdir, 'out.smt2')
+        try:
+            real_write(path, exprs)
+            with open(path) as f:
+                env.filewrites.append(norm(tokens(list(
+                    nodeio.parse_smtlib(f.read())))))
+        except Exception as e:
+            env.filewrites.append(f'{type(e).__name__}: {e}')
         if len(env.writes) > maxwrites:
             raise Runaway()
 
@@ -262,6 +280,10 @@ def setup(decider, strategy, jobs, nbits, script, mutset, maxwrites=12,
         for (mod, name), val in saved.items():
             setattr(mod, name, val)
         setattr(strategy_ddmin, '__abort_flag', None)
+        if env.workdir is not None:
+            import shutil
+            shutil.rmtree(env.workdir, ignore_errors=True)
+            env.workdir = None
 
     env.restore = restore
     return env
@@ -302,6 +324,10 @@ def check_chain(env, final):
                         f'one simplification: predecessor {prev!r}, written '
                         f'{w!r}; it was derived from {bases!r}')
             prev = w
+    for k, (w, fw) in enumerate(zip(env.writes, env.filewrites)):
+        if w != fw:
+            return (f'after write #{k + 1} the output file does not hold the '
+                    f'accepted input {w!r} but {fw!r}')
     if final is not None:
         ft = tokens(final)
         if ft != prev:
